@@ -672,6 +672,7 @@ func c14(c *core.Ctx, r *core.Report) {
 		// every NewIterationWorker call site
 		niw := c.MustFn("internal/trigger/api", "NewIterationWorker")
 		sites := an.CallSitesOf(c, niw)
+		extraSites := 0
 		for _, call := range sites {
 			key := core.FuncName(call.Parent()) + "#NewIterationWorker"
 			arg := call.Common().Args[0]
@@ -713,9 +714,46 @@ func c14(c *core.Ctx, r *core.Report) {
 					}
 				}
 			}
+			// the interval is a field of a *Rates handed to a shared trigger constructor: every call of that constructor
+			// passes the result of a Calculate*Rate whose IterationDuration is positive on success
+			if fld, owner := an.TerminalField(arg); fld != nil && an.IsNamed(owner, apiPkg, "Rates") {
+				if fa, isFA := an.Terminal(arg).(*ssa.FieldAddr); isFA {
+					if p, isP := an.Strip(fa.X).(*ssa.Parameter); isP && p.Parent() == call.Parent() {
+						upSites := an.CallSitesOf(c, call.Parent())
+						okAll := len(upSites) > 0
+						for _, us := range upSites {
+							i := an.ParamIndex(p)
+							if i >= len(us.Common().Args) {
+								okAll = false
+								continue
+							}
+							ex, isEx := stripAllocs(us.Common().Args[i]).(*ssa.Extract)
+							if !isEx {
+								okAll = false
+								continue
+							}
+							cc, isCall := ex.Tuple.(*ssa.Call)
+							if !isCall {
+								okAll = false
+								continue
+							}
+							// used only after the error was tested: the C14.R12 rule covers that; here: positive on success
+							if ps := fieldPositiveOnSuccess(c, an.Callee(cc), fld.Name(), 4); ps.kind != posYes {
+								okAll = false
+								r.Violation(key+"@"+core.FuncName(us.Parent()), an.Pos(c, us), "the rates handed to %s come from %s, whose %s is not shown positive: %s", core.FuncName(call.Parent()), core.FuncName(an.Callee(cc)), fld.Name(), ps.why)
+							}
+							extraSites++
+						}
+						if okAll {
+							r.OK(key, an.Pos(c, call), "interval is %s of the rates every caller (%d) computed with a Calculate*Rate that makes it positive", fld.Name(), len(upSites))
+							continue
+						}
+					}
+				}
+			}
 			r.Violation(key, an.Pos(c, call), "the tick interval handed to NewIterationWorker (%s) is not shown positive: %s", an.D().Of(arg), vs.why)
 		}
-		r.Floor("NewIterationWorker call sites", len(sites), 4)
+		r.Floor("NewIterationWorker call sites (or callers of a shared trigger constructor)", len(sites)+extraSites, 4)
 		// schedules
 		n := 0
 		for _, fn := range c.AllFuncs {
